@@ -82,13 +82,15 @@ def gen_tables(fmt):
     return sorted(mods.values())
 
 
-def make(vt, tab, clen, first, opc):
+def make(vt, tab, clen, first, opc, as_str=False):
     nop = opc.opmap.get("NOP", opc.opmap.get("POP_TOP"))
     code = bytes(bytearray([nop, 0] * (clen // 2))) if vt >= (3, 6) else bytes(bytearray([nop] * clen))
     return to_portable(
         co_argcount=0, co_posonlyargcount=0, co_kwonlyargcount=0, co_nlocals=0, co_stacksize=1, co_flags=0,
         co_code=code, co_consts=(None,), co_names=(), co_varnames=(), co_filename="gen.py", co_name="gen",
-        co_qualname="gen", co_firstlineno=first, co_lnotab=bytes(bytearray(tab)), co_freevars=(), co_cellvars=(),
+        co_qualname="gen", co_firstlineno=first,
+        # a Python 1.5-2.7 table may be held as text whose code points are the byte values (what Code15/Code2.freeze() produce)
+        co_lnotab="".join(chr(b_) for b_ in tab) if as_str else bytes(bytearray(tab)), co_freevars=(), co_cellvars=(),
         co_exceptiontable=b"", version_triple=vt + (0,))
 
 
@@ -142,6 +144,14 @@ def main():
                         import traceback
                         r = {"id": ident, "error": "%s: %s" % (type(e).__name__, e), "tb": traceback.format_exc()[-600:]}
                     fh.write(json.dumps(r) + "\n")
+                    if b["fmt"] == "lnotab_u" and key in ("1.5", "2.7") and "error" not in r:
+                        ident2 = ident + "@str"
+                        try:
+                            with xd.quiet():
+                                r2 = record(make(vt, b["tab"], b["clen"], b["first"], opc, as_str=True), opc, ident2, b["fmt"], tab=b["tab"])
+                        except Exception as e:
+                            r2 = {"id": ident2, "error": "%s: %s" % (type(e).__name__, e)}
+                        fh.write(json.dumps(r2) + "\n")
 
 
 main()
